@@ -1,13 +1,9 @@
 import TaskModel.Sched.LiveOrder
 /-!
-Sched.LiveMain — deadlock freedom of the executor model for acyclic programs.
-
-In a reachable configuration, an activation that has not returned either can move, or
-waits for a slot (then a slot is free, or some holder can move), or waits for another
-activation that has not returned and is strictly smaller in the lexicographic measure
-(`2 * rank task + [is a dedup waiter]`, creation order reversed) — so by induction some
-label is accepted.  The rank need only decrease along references from or to deduplicated
-tasks (`SemiRankOk`): cycles through `run: always` tasks are covered.
+Sched.LiveMain — the building blocks of deadlock freedom (the theorem itself is
+`no_deadlock_all` in `LiveAll.lean`): fresh ids, when a dependency / a callee / a call of
+`Run` may enter, the phases that never block, "no free slot ⇒ some holder can move", what a
+blocked dependency join waits for.
 -/
 namespace TaskModel.Sched.S7
 
@@ -163,208 +159,11 @@ theorem depResults_none (c : Config) (x : Act) : ∀ (n j : Nat), depResults c x
           exact ⟨j', by omega, by omega, h3⟩
         | some rs => rw [hd] at h; cases h
 
-def runOf (P : Program) (t : Nat) : RunMode := ((P[t]?).getD {}).run
-
-/-- a rank that never increases along a reference (`deps:` or `task:`) and decreases along
-every reference from or to a deduplicated (`run: once` / `when_changed`) task: no reference
-cycle goes through a deduplicated task -/
-def SemiRankOk (P : Program) (rank : Nat → Nat) : Prop :=
-  ∀ t d, P[t]? = some d → ∀ u, (u ∈ d.deps ∨ ∃ dfr, Cmd.call u dfr ∈ d.cmds) →
-    rank u ≤ rank t ∧ ((d.run ≠ .always ∨ runOf P u ≠ .always) → rank u < rank t)
-
-theorem semiRank_of_rank (P : Program) (rank : Nat → Nat) (h : RankOk P rank) : SemiRankOk P rank := by
-  intro t d hd u hu
-  obtain ⟨h1, h2⟩ := h t d hd
-  have : rank u < rank t := by
-    rcases hu with hu | ⟨dfr, hu⟩
-    · exact h1 u hu
-    · exact h2 u dfr hu
-  exact ⟨Nat.le_of_lt this, fun _ => this⟩
-
-theorem semiRank_of_always (P : Program) (h : ∀ (t : Nat) (d : TaskDef), P[t]? = some d → d.run = .always) :
-    SemiRankOk P (fun _ => 0) := by
-  intro t d hd u _
-  refine ⟨Nat.le_refl _, ?_⟩
-  intro hne
-  exfalso
-  rcases hne with e | e
-  · exact e (h t d hd)
-  · apply e
-    unfold runOf
-    cases hu : P[u]? with
-    | none => rfl
-    | some du => exact h u du hu
-
-theorem slot_rank (P : Program) (rank : Nat → Nat) (hr : SemiRankOk P rank) (x : Act)
-    (hs : x.def_ = (P[x.task]?).getD {}) (s t : Nat) (hslot : slotFor x s t) :
-    rank t ≤ rank x.task ∧ ((x.def_.run ≠ .always ∨ runOf P t ≠ .always) → rank t < rank x.task) := by
-  cases hp : P[x.task]? with
-  | none =>
-    rw [hp] at hs
-    unfold slotFor at hslot
-    rw [hs] at hslot
-    rcases hslot with h | ⟨i, d, _, h⟩ <;> simp at h
-  | some d =>
-    rw [hp] at hs
-    simp only [Option.getD_some] at hs
-    unfold slotFor at hslot
-    rw [hs] at hslot ⊢
-    apply hr x.task d hp t
-    rcases hslot with h | ⟨i, dd, _, h⟩
-    · exact .inl (List.mem_of_getElem? h)
-    · exact .inr ⟨dd, List.mem_of_getElem? h⟩
-
 theorem kid_not_done (c : Config) (id : Nat) (k : Act) (hk : c.act? id = some k) (hd : kidDone c id = none) :
     k.phase ≠ .done := by
   intro e
   unfold kidDone at hd
   rw [hk] at hd
   simp [e] at hd
-
-/-- first component of the measure that decreases along "waits for" -/
-def mfst (rank : Nat → Nat) (x : Act) : Nat := 2 * rank x.task + (if x.phase = .wReleased then 1 else 0)
-
-/-- the measure: lexicographic in (`mfst`, creation order reversed) -/
-def meas (rank : Nat → Nat) (ids : List Nat) (a : Nat) (x : Act) : Nat :=
-  mfst rank x * (ids.length + 1) + (ids.length - pos a ids)
-
-theorem meas_lt_fst (rank : Nat → Nat) (ids : List Nat) (a b : Nat) (x k : Act) (h : mfst rank k < mfst rank x) :
-    meas rank ids b k < meas rank ids a x := by
-  unfold meas
-  have h1 : (mfst rank k + 1) * (ids.length + 1) ≤ mfst rank x * (ids.length + 1) := Nat.mul_le_mul_right _ h
-  rw [Nat.add_mul] at h1
-  omega
-
-theorem meas_lt_pos (rank : Nat → Nat) (ids : List Nat) (a b : Nat) (x k : Act) (h : mfst rank k ≤ mfst rank x)
-    (hp : pos a ids < pos b ids) (hb : pos b ids ≤ ids.length) : meas rank ids b k < meas rank ids a x := by
-  unfold meas
-  have h1 : mfst rank k * (ids.length + 1) ≤ mfst rank x * (ids.length + 1) := Nat.mul_le_mul_right _ h
-  omega
-
-/-! ### the main argument -/
-
-theorem no_deadlock_aux (P : Program) (F : Flags) (rank : Nat → Nat) (hr : SemiRankOk P rank)
-    (c : Config) (tr : List Label) (hl : Live P c) (htl : TraceLink c tr) (ht : TokInv c tr)
-    (ho : OrderInv c tr) (hk : KeysByTask tr) (hcap : F.cap ≠ some 0) :
-    ∀ (m : Nat) (a : Nat) (x : Act), c.act? a = some x → x.phase ≠ .done → meas rank (actIds tr) a x < m →
-      ∃ l, (step P F c l).isSome = true := by
-  intro m
-  induction m with
-  | zero => intro a x _ _ h; omega
-  | succ m ih =>
-    intro a x hx hnd hm
-    have hloc := hl.loc a x hx
-    have hslotfree := slot_or_holder P F c tr hl ht hcap
-    -- a kid that has not returned is smaller
-    have hkid : ∀ s id, x.kids.lookup s = some id → kidDone c id = none → ∃ l, (step P F c l).isSome = true := by
-      intro s id hlk hkd
-      obtain ⟨k, hkk, hsl⟩ := hl.kids a x s id hx hlk
-      obtain ⟨hidin, hpos⟩ := ho a x s id hx hlk
-      obtain ⟨hle, hstrict⟩ := slot_rank P rank hr x hloc.static s k.task hsl
-      have hkloc := hl.loc id k hkk
-      have hlt : meas rank (actIds tr) id k < meas rank (actIds tr) a x := by
-        by_cases hkw : k.phase = .wReleased
-        · have hne := hkloc.keys.waiter (by rw [hkw]; rfl)
-          have hrun : runOf P k.task ≠ .always := by
-            unfold runOf; rw [← hkloc.static]; exact hkloc.dedup hne
-          have := hstrict (.inr hrun)
-          apply meas_lt_fst
-          unfold mfst; rw [if_pos hkw]; split <;> omega
-        · apply meas_lt_pos _ _ _ _ _ _ _ hpos (pos_le _ _)
-          unfold mfst; rw [if_neg hkw]; split <;> omega
-      exact ih id k hkk (kid_not_done c id k hkk hkd) (by omega)
-    cases hp : x.phase with
-    | done => exact absurd hp hnd
-    | entered =>
-      rcases hslotfree with hf | hmv
-      · exact ⟨_, step_of_local P F c a x .acquire hx (by rw [wait_entered F _ x hp]; exact hf)⟩
-      · exact hmv
-    | wWoken =>
-      rcases hslotfree with hf | hmv
-      · exact ⟨_, step_of_local P F c a x .wReacq hx (by rw [wait_wWoken F _ x hp]; exact hf)⟩
-      · exact hmv
-    | callReturned i d =>
-      rcases hslotfree with hf | hmv
-      · exact ⟨_, step_of_local P F c a x (.callReacq i) hx (by rw [wait_callReturned F _ x i d hloc.wf hp]; exact hf)⟩
-      · exact hmv
-    | depsWait =>
-      cases hd : depResults c x x.def_.deps.length 0 with
-      | some rs =>
-        rcases hslotfree with hf | hmv
-        · refine ⟨_, step_of_local P F c a x .depsReacq hx ?_⟩
-          rw [wait_depsWait F _ x hp]
-          have : ((obsOf F c a x).deps ()) = some rs := hd
-          rw [this]; exact hf
-        · exact hmv
-      | none =>
-        obtain ⟨j', _, hj2, hcase⟩ := depResults_none c x _ _ hd
-        rcases hcase with hnone | ⟨id, hsome, hkd⟩
-        · have hlt : j' < x.def_.deps.length := by omega
-          exact dep_enter_enabled P F c a x j' _ hx hp hnone (List.getElem?_eq_getElem hlt)
-        · exact hkid _ id hsome hkd
-    | inCall i d =>
-      cases hlk : x.kids.lookup (slotOfCall x i) with
-      | none =>
-        obtain ⟨t, hcmd⟩ := hloc.call i d hp
-        exact call_enter_enabled P F c a x i d t hx hp hlk hcmd
-      | some id =>
-        cases hkd : kidDone c id with
-        | none => exact hkid _ id hlk hkd
-        | some r =>
-          refine ⟨_, step_of_local P F c a x (.callRet i) hx ?_⟩
-          rw [wait_inCall F _ x i d hp]
-          have : (obsOf F c a x).callKid () = some r := by
-            simp [obsOf, callKidOf, hp, hlk, hkd]
-          rw [this]; rfl
-    | wReleased =>
-      have hwne := hloc.keys.waiter (by rw [hp]; rfl)
-      cases hw : x.waitsFor with
-      | none => exact absurd hw hwne
-      | some k =>
-        have hreg := hl.waits a x k hx hw
-        cases he : c.execs.lookup k with
-        | none => rw [he] at hreg; cases hreg
-        | some e =>
-          obtain ⟨ex, hex, hkey⟩ := hl.execs k e he
-          by_cases hfin : ex.phase = .execDoneP ∨ ex.phase = .released ∨ ex.phase = .done
-          · refine ⟨_, step_of_local P F c a x .wWake hx ?_⟩
-            rw [wait_wReleased F _ x hp]
-            have : (obsOf F c a x).execResult () = some ex.out := by
-              simp only [obsOf, execResultOf, hw, he, hex]
-              rcases hfin with e' | e' | e' <;> simp [e']
-            rw [this]; rfl
-          · have hexnd : ex.phase ≠ .done := fun e' => hfin (.inr (.inr e'))
-            have htask := keys_same_task c tr hk htl a x k hx hw e ex hex hkey
-            have hexw : ex.phase ≠ .wReleased := by
-              intro e'
-              have h1 := (hl.loc e ex hex).keys.excl (by rw [hkey]; simp)
-              exact (hl.loc e ex hex).keys.waiter (by rw [e']; rfl) h1
-            have hlt : meas rank (actIds tr) e ex < meas rank (actIds tr) a x := by
-              apply meas_lt_fst
-              unfold mfst; rw [htask, if_neg hexw, if_pos hp]; omega
-            exact ih e ex hex hexnd (by omega)
-    | early => exact nonblocking_moves P F c hl a x hx hnd (by rw [hp]; rfl)
-    | acquired => exact nonblocking_moves P F c hl a x hx hnd (by rw [hp]; rfl)
-    | wWaiting => exact nonblocking_moves P F c hl a x hx hnd (by rw [hp]; rfl)
-    | exec => exact nonblocking_moves P F c hl a x hx hnd (by rw [hp]; rfl)
-    | depsJoined => exact nonblocking_moves P F c hl a x hx hnd (by rw [hp]; rfl)
-    | guards => exact nonblocking_moves P F c hl a x hx hnd (by rw [hp]; rfl)
-    | body => exact nonblocking_moves P F c hl a x hx hnd (by rw [hp]; rfl)
-    | inShell i d => exact nonblocking_moves P F c hl a x hx hnd (by rw [hp]; rfl)
-    | defers => exact nonblocking_moves P F c hl a x hx hnd (by rw [hp]; rfl)
-    | finished => exact nonblocking_moves P F c hl a x hx hnd (by rw [hp]; rfl)
-    | execDoneP => exact nonblocking_moves P F c hl a x hx hnd (by rw [hp]; rfl)
-    | released => exact nonblocking_moves P F c hl a x hx hnd (by rw [hp]; rfl)
-
-/-- **deadlock freedom**: for a program without reference cycle through a deduplicated task,
-at least one slot and dedup keys that identify the task, every reachable configuration in
-which some activation has not returned accepts a label -/
-theorem no_deadlock (P : Program) (F : Flags) (rank : Nat → Nat) (hr : SemiRankOk P rank) (n : Nat)
-    (tr : List Label) (c : Config) (hcap : F.cap ≠ some 0) (hk : KeysByTask tr)
-    (h : replay P F (init n) tr = some c) (a : Nat) (x : Act) (hx : c.act? a = some x)
-    (hnd : x.phase ≠ .done) : ∃ l, (step P F c l).isSome = true := by
-  obtain ⟨hl, htl, ht⟩ := live_trace_reach P F n tr c h
-  exact no_deadlock_aux P F rank hr c tr hl htl ht (orderInv_reach P F n tr c h) hk hcap
-    (meas rank (actIds tr) a x + 1) a x hx hnd (Nat.lt_succ_self _)
 
 end TaskModel.Sched.S7
